@@ -179,7 +179,8 @@ impl Srv {
 	fn rec<T: Any + Send + Clone>(&self, name: &'static str, args: T) -> RpcResult<T> {
 		self.0.calls.lock().push((name, Box::new(args.clone())));
 		match self.0.fail.lock().clone() {
-			Some((code, msg, data)) => Err(ErrorObject::owned(code, msg, data)),
+			// (the data member goes out as the very JSON text the case holds: member order and number literals as written)
+			Some((code, msg, data)) => Err(ErrorObject::owned(code, msg, data.and_then(|d| d.as_str().and_then(|t| serde_json::value::RawValue::from_string(t.to_string()).ok())))),
 			None => Ok(args),
 		}
 	}
@@ -540,13 +541,13 @@ fn to_v<T: Serialize>(t: &T) -> Value {
 	serde_json::to_value(t).unwrap()
 }
 
-/// the client's view of an outcome: Ok(json of the value) or Err((code, message, data))
+/// the client's view of an outcome: Ok(json of the value) or Err((code, message, the JSON text of data))
 type Seen = Result<Value, (i32, String, Option<Value>)>;
 
 fn seen<T: Serialize>(r: Result<T, jsonrpsee::core::client::Error>) -> Result<Seen, String> {
 	match r {
 		Ok(v) => Ok(Ok(to_v(&v))),
-		Err(jsonrpsee::core::client::Error::Call(e)) => Ok(Err((e.code(), e.message().to_string(), e.data().map(|d| serde_json::from_str(d.get()).unwrap())))),
+		Err(jsonrpsee::core::client::Error::Call(e)) => Ok(Err((e.code(), e.message().to_string(), e.data().map(|d| Value::String(d.get().to_string()))))),
 		Err(e) => Err(format!("{e:?}")),
 	}
 }
@@ -581,7 +582,7 @@ impl SubCheck for Stubs {
 		rt.block_on(async {
 			let lb = loopback();
 			let c = &lb.client;
-			*lb.state.fail.lock() = case.fail.as_ref().map(|(code, m, d)| (*code, m.clone(), d.as_ref().map(|d| d.to_value())));
+			*lb.state.fail.lock() = case.fail.as_ref().map(|(code, m, d)| (*code, m.clone(), d.as_ref().map(|d| Value::String(d.compact()))));
 			let want_err: Option<(i32, String, Option<Value>)> = lb.state.fail.lock().clone();
 			let desc = || format!("case={case:?} wire={:?}", lb.wire.lock());
 			macro_rules! judge {
